@@ -20,6 +20,7 @@ import signal
 import subprocess
 import sys
 import tempfile
+import time
 import urllib.parse
 
 import common
@@ -171,7 +172,7 @@ PREFIXES = ["", "pre", "p:q"]
 LOOKUP_KEYS = ["k", "p:q:k", "pre:k", "p:qk", "p:q:", "p:q", "pre:", "flag", "pre:flag", "p:q:flag", "p:q:k:x", ":k", "prek"]
 URIS = ["/upd/a", "/upd/b?x=1", "/upd/", "/upd", "/other/a", "/upd/a%20b", "/upd/%41", "/upd/a%00", "/upd/%C3%A9",
         "/upd/a/b", "/upd/a?y=%00", "/updx/a", "/upd//", "/UPD/a"]
-BODIES = [b'{"a": [1, 2.5, null]}', b'"x"', b"1e999", b"NaN", b"[1,", b"\xff", b"", b'{"a":1,"a":2}', b"12345678901234567890123",
+BODIES = [b'"\xed\xa0\x80"', b'{"a": [1, 2.5, null]}', b'"x"', b"1e999", b"NaN", b"[1,", b"\xff", b"", b'{"a":1,"a":2}', b"12345678901234567890123",
           b"hello", b"\xc3\xa9", b"\xff\xfe", b"true", b" 1 ", b'"\\ud800"', b"1.0", b"-0.0", b"[1, 2] x"]
 CLENS = ["=", "=", "=", None, "x", "0", "3", "-1", " 5 ", "1_0", "99"]
 
@@ -488,6 +489,9 @@ class C15(Check):
         return hashlib.sha1(repr(self.show(c)).encode()).hexdigest()
 
     def show(self, c):
+        if c.get("_extra"):
+            return c
+
         def sv(x):
             return repr(x)
         return {"stores_strict": c["stores"], "sources": [list(s) for s in c["sources"]],
@@ -584,16 +588,188 @@ class C15(Check):
                 for which, rw in (("open-connection", rows), ("new-connection", rows2)):
                     lines.append(sx([[1, mops], [acked, [[r[0], r[1], short(r[2])] for r in rw]]]))
                     metas.append({"_extra": True, "kind": "killed-writer", "ops": [repr(o)[:80] for o in ops],
-                                  "kill_after_ack": n, "acks_seen": acked, "read_through": which,
+                                  "ops_raw": ops, "kill_after_ack": n, "acks_seen": acked, "read_through": which,
                                   "table_after_kill": [[x.decode("utf-8", "replace")[:60] for x in r] for r in rw]})
+        self.inside_kill_checks(tier, rng, report, lines, metas)
         outs = common.run_model(self.ident, lines)
         for ln, meta, out in zip(lines, metas, outs):
             r = common.unsx(out)
             report["evaluations"] += 1
             failed = common.names(r[2]) if isinstance(r, list) and len(r) >= 3 else ["crash_case_rejected"]
+            if meta.get("integrity_check", [["ok"]]) != [["ok"]] and meta["read_through"] == "new-connection":
+                failed = failed + ["crash_database_intact"]
             if failed:
                 report.setdefault("extra_failing", []).append((meta, failed, meta["table_after_kill"], "fold of the first acks_seen or acks_seen+1 operations"))
         report["extra"]["kill_runs"] = runs
+
+    # ---- writer killed INSIDE one statement
+    @staticmethod
+    def wchar(pid):
+        """bytes the process has passed to write() system calls so far (Linux), None if not available"""
+        try:
+            with open(f"/proc/{pid}/io") as f:
+                for ln in f:
+                    if ln.startswith("wchar:"):
+                        return int(ln.split()[1])
+        except OSError:
+            return None
+        return None
+
+    def inside_kill_run(self, ops, limit):
+        """The writer performs `ops`; at its ["wait"] the parent samples the writer's write counter, lets it go on
+        and SIGKILLs it as soon as it has issued `limit` more bytes of write() calls (limit None: never, for
+        calibration).  Returns (acks, rows via the connection that was open all the time, rows via a new
+        connection, integrity_check via the new connection, bytes written after the wait) or None if /proc is
+        not usable."""
+        path = new_db()
+        sqlite_store.DataStore(path).close()
+        READER.cmd({"open": path})
+        env = dict(os.environ, PYTHONPATH=common.REPO, PYTHONDONTWRITEBYTECODE="1")
+        p = subprocess.Popen([sys.executable, os.path.join(HERE, "c15_writer.py"), path], stdin=subprocess.PIPE,
+                             stdout=subprocess.PIPE, env=env)
+        fd = p.stdout.fileno()
+        try:
+            p.stdin.write((json.dumps(ops) + "\n").encode())
+            p.stdin.flush()
+            got = b""
+            while b"W" not in got:
+                ch = os.read(fd, 1)
+                if not ch:
+                    return None
+                got += ch
+            base = self.wchar(p.pid)
+            if base is None:
+                return None
+            os.set_blocking(fd, False)
+            p.stdin.write(b"go\n")
+            p.stdin.flush()
+            deadline = time.time() + 30
+            written = 0
+            while time.time() < deadline:
+                w = self.wchar(p.pid)
+                if w is None:
+                    break
+                written = w - base
+                if limit is not None and written >= limit:
+                    break
+                try:
+                    ch = os.read(fd, 4096)
+                    got += ch
+                    if b"Z" in got or not ch:
+                        break
+                except BlockingIOError:
+                    pass
+            p.send_signal(signal.SIGKILL)
+            p.wait()
+            os.set_blocking(fd, True)
+            while True:
+                ch = os.read(fd, 65536)
+                if not ch:
+                    break
+                got += ch
+            rows = READER.dump()
+            READER.cmd({"open": path})
+            rows2 = READER.dump()
+            integ = READER.cmd({"check": 1})
+            READER.cmd({"close": 1})
+        finally:
+            if p.poll() is None:
+                p.kill()
+            for f in (p.stdin, p.stdout):
+                try:
+                    f.close()
+                except Exception:   # noqa: BLE001
+                    pass
+            for suffix in ("", "-journal", "-wal", "-shm"):
+                if os.path.exists(path + suffix):
+                    os.unlink(path + suffix)
+        return got.count(b"A"), rows, rows2, integ, written
+
+    def inside_kill_checks(self, tier, rng, report, lines, metas):
+        size = 4 * 1024 * 1024
+        ops = [["set", "other", "flag", True], ["setbig", "sys", "key", "A", size], ["set", "b", "k", [1, "x"]],
+               ["wait"], ["setbig", "sys", "key", "B", size], ["set", "c", "k", 2]]
+        mops = []
+        for o in ops:
+            if o[0] == "set":
+                mops.append([0, u8(o[1]), u8(o[2]), u8(json.dumps(o[3]))])
+            elif o[0] == "setbig":
+                mops.append([0, u8(o[1]), u8(o[2]), short(u8(json.dumps(o[3] * o[4])))])
+        cal = self.inside_kill_run(ops[:5], None)
+        if cal is None:
+            report["extra"]["inside_kill_runs"] = "skipped: /proc/<pid>/io not available"
+            return
+        total = cal[4]
+        fracs = [(i + 0.5) / 12 for i in range(12)] if tier == "quick" else [(i + 0.5) / 48 for i in range(48)]
+        runs = 0
+        for fr in fracs:
+            r = self.inside_kill_run(ops, int(total * fr))
+            if r is None:
+                continue
+            acked, rows, rows2, integ, written = r
+            runs += 1
+            for which, rw in (("open-connection", rows), ("new-connection", rows2)):
+                lines.append(sx([[1, mops], [acked, [[x[0], x[1], short(x[2])] for x in rw]]]))
+                metas.append({"_extra": True, "kind": "writer-killed-inside-one-set_value", "ops": [repr(o)[:60] for o in ops],
+                              "ops_raw": ops, "kill_limit_bytes": int(total * fr),
+                              "statement_bytes_total": total, "killed_after_bytes": written, "acks_seen": acked,
+                              "read_through": which, "integrity_check": self.clip(integ),
+                              "table_after_kill": [[x.decode("utf-8", "replace")[:60] for x in row] for row in
+                                                   [[x[0], x[1], short(x[2])] for x in rw]]})
+        report["extra"]["inside_kill_runs"] = runs
+        report["extra"]["inside_kill_statement_bytes"] = total
+
+    @staticmethod
+    def clip(integ):
+        if isinstance(integ, list):
+            return [[str(x)[:300] for x in row] for row in integ[:3]]
+        return integ
+
+    @staticmethod
+    def mops_of(ops):
+        mops = []
+        for o in ops:
+            if o[0] == "set":
+                mops.append([0, u8(o[1]), u8(o[2]), short(u8(json.dumps(o[3])))])
+            elif o[0] == "setbig":
+                mops.append([0, u8(o[1]), u8(o[2]), short(u8(json.dumps(o[3] * o[4])))])
+            elif o[0] == "del":
+                mops.append([1, u8(o[1]), u8(o[2])])
+            elif o[0] == "delall":
+                mops.append([2, u8(o[1])])
+        return mops
+
+    def do_replay(self, path, build):
+        doc = json.load(open(path))
+        case = common._unpickle_b64(doc["case_pickle"]) if doc.get("case_pickle") else None
+        if not (isinstance(case, dict) and case.get("_extra")):
+            return super().do_replay(path, build)
+        # a kill run: repeat it (the kill lands at the same acknowledgement / byte count, not at the same instruction)
+        ops = case["ops_raw"]
+        if case["kind"] == "killed-writer":
+            acked, rows, rows2 = self.kill_run(ops, case["kill_after_ack"])
+            integ = [["ok"]]
+        else:
+            r = self.inside_kill_run(ops, case["kill_limit_bytes"])
+            if r is None:
+                print("replay skipped: /proc/<pid>/io not available")
+                return 0
+            acked, rows, rows2, integ, _written = r
+        bad = False
+        for which, rw in (("open-connection", rows), ("new-connection", rows2)):
+            rw = [[x[0], x[1], short(x[2])] for x in rw]
+            out = common.unsx(common.run_model(self.ident, [sx([[1, self.mops_of(ops)], [acked, rw]])])[0])
+            failed = common.names(out[2])
+            if which == "new-connection" and integ != [["ok"]]:
+                failed = failed + ["crash_database_intact"]
+            print(f"{which}: acks={acked} table={[[x.decode('utf-8', 'replace')[:50] for x in r] for r in rw]}")
+            print("  integrity_check:", self.clip(integ))
+            print("  failed clauses on implementation:", failed)
+            bad = bad or bool(failed)
+        if bad:
+            print(f"VIOLATION property={self.ident} replay={path}")
+            return 1
+        return 0
 
     @staticmethod
     def jsonsafe(v):
